@@ -313,14 +313,14 @@ func scenarioRead(op string) func(c *harness.Ctx) {
 				continue
 			}
 			nVariants := 2
-			if c.Tier == "thorough" && !mega {
+			if c.Tier == "thorough" && !mega && n <= 30000 {
 				nVariants = 12 // every error kind x with/without data x contiguous/one-byte
 			}
 			for variant := 0; variant < nVariants; variant++ {
 				e := (k + variant*2 + tp.Choose(3)) % 3
 				withData := variant == 1 && k > 0
 				oneByte := tp.Bool(1, 3)
-				if mega {
+				if mega || n > 30000 {
 					oneByte = false // a megabyte one byte at a time costs a second per execution
 				}
 				if nVariants == 12 {
